@@ -27,7 +27,7 @@ inline int SUNContext_Create(void *comm, SUNContext *ctx) { *ctx = new _vt_SUNCo
 inline int SUNContext_Free(SUNContext *ctx) { if (ctx && *ctx) { delete *ctx; *ctx = nullptr; } return 0; }
 
 // ---------------------------------------------------------------- N_Vector (serial)
-struct _vt_NVector { realtype *data; sunindextype length; bool own; };
+struct _vt_NVector { realtype *data; sunindextype length; bool own; void *content = nullptr; };
 typedef _vt_NVector *N_Vector;
 inline N_Vector N_VNewEmpty_Serial(sunindextype n, SUNContext) { return new _vt_NVector{nullptr, n, false}; }
 inline N_Vector N_VNew_Serial(sunindextype n, SUNContext) { return new _vt_NVector{(realtype *)calloc(n > 0 ? n : 1, sizeof(realtype)), n, true}; }
@@ -42,10 +42,12 @@ inline void N_VConst(realtype c, N_Vector v) { for (sunindextype i = 0; i < v->l
 #define CSC_MAT 0
 #define CSR_MAT 1
 struct _vt_SUNMatrix {
-    int kind;  // 0 dense, 1 sparse
+    int kind;  // 0 dense, 1 sparse, 2 block-CSR (cuSPARSE emulation, vt_cuda.h)
     sunindextype M, N, NNZ;
     realtype *data;
     sunindextype *indexvals, *indexptrs;
+    int nblocks = 1;
+    sunindextype blocknnz = 0;
 };
 typedef _vt_SUNMatrix *SUNMatrix;
 inline SUNMatrix SUNDenseMatrix(sunindextype M, sunindextype N, SUNContext) {
